@@ -211,8 +211,8 @@ def check_C02(ck):
         windows = list(range(2, 13)) if not thorough else list(range(2, 19 if tag == "g1" else 16))
         small_scal = [s for s in scal if s[1] < 2 ** 255]
         for w in windows:
-            sub = small_scal if w <= 6 else small_scal[:: (3 if not thorough else 1)]
-            for (cp, P) in base_pts[:2] if w > 8 else base_pts:
+            sub = small_scal if (w <= 5 or thorough) else (small_scal[::4] if w <= 8 else small_scal[::9])
+            for (cp, P) in base_pts[1:2] if (w > 8 and not thorough) else base_pts:
                 for (cs, k) in sub:
                     cases.append(("wnaf/w%d/%s/%s" % (w, cp, cs), "%s wnaf %x %s %x" % (tag, w, g.J(P, g.lam(rng)), k)))
                     exp.append(g.A(C.mul(P, k)))
@@ -238,9 +238,9 @@ def check_C02(ck):
                 k = rng.choice(small_scal)[1]
                 if rng.randrange(2):
                     n = rng.choice([0, 1, 2, 4, 8, 21, 44, 121, 300, 70000, 100000])
-                    hist.append("bs,%s,%x,%x" % (g.J(P, g.lam(rng)), n, k))
+                    hist.append("bs:%s:%x:%x" % (g.J(P, g.lam(rng)), n, k))
                 else:
-                    hist.append("sb,%x,%s" % (k, g.J(P, g.lam(rng))))
+                    hist.append("sb:%x:%s" % (k, g.J(P, g.lam(rng))))
                 want.append(g.A(C.mul(P, k)))
             line = "%s wnafhist %s" % (tag, ";".join(hist))
             (impl, _), = ck.run([("wnaf-history", line)])
